@@ -50,13 +50,6 @@ theorem dropCommon_spec : ∀ (A B : List Text), (∀ s ∈ A, wellEscaped s = t
 
 /-! ## what `pushAll` writes onto an empty relative reference -/
 
-/-- the text of a relative path with the given segments, as `push` writes it at the very start of a
-reference: `./` in front of a first segment that is empty or contains `:` -/
-def renderRel (L : List Text) : Text :=
-  match L with
-  | [] => []
-  | s :: _ => (if fsc s || s.isEmpty then [cDot, cSlash] else []) ++ joinSlash L
-
 def pathOnly (p : Text) : Spec.Parts := { scheme := none, authority := none, path := p, query := none, fragment := none }
 
 theorem recompose_pathOnly (p : Text) : recompose (pathOnly p) = p := by
@@ -358,16 +351,6 @@ section
 variable (G : Grammar) (ok : Grammar.Ok G) (okp : Grammar.OkPath G)
 include ok okp
 
-/-- what is left of `a`'s normalised segments (its last one always), what is left of the normalised
-directory of `b`, and whether a common directory was dropped -/
-def remainder (a b : Text) : List Text × List Text × Bool :=
-  Ref.dropCommon (nsegs (split a).path) (nsegs (Path.parent_or_empty (split b).path))
-
-/-- the segments of the relative reference: `..` for what is left of `b`'s directory, then what is
-left of `a` -/
-def relSegs (a b : Text) : List Text :=
-  ((remainder a b).2.1.map fun _ => segDotDot) ++ (remainder a b).1
-
 omit ok okp in
 theorem head_not_dotdot {L : List Text} (df : DotFree L) : (L.head? == some [cDot, cDot]) = false := by
   cases L with
@@ -391,14 +374,6 @@ theorem renderRel_ne_nil (L : List Text) (hne : L ≠ []) (hns : ∀ s ∈ L, cS
       cases x with
       | nil => simp at hsh'
       | cons c r => cases xs <;> simp [joinSlash]
-
-/-- the "same document" shortcut of `relative_to`: the target has a query or a fragment, its
-query would not be lost behind the base's, and the relative path written so far is the base's
-last segment -/
-def sdCond (a b : Text) : Bool :=
-  ((split a).query.isSome || (split a).fragment.isSome) &&
-    ((split a).query.isSome || (split b).query.isNone) &&
-    some (renderRel (relSegs a b)) == Path.last (split b).path
 
 omit ok okp in
 /-- `clear` through a fresh handle on a path-only relative reference -/
